@@ -336,6 +336,12 @@ def gen_case(sub, routines, scn_id, connected=False, nmax=12, invalid_frac=0.0):
     if routine == 'randomizer_bin_und':
         fam = rnd.choice(('er_sparse', 'er_mid', 'er_dense', 'near_complete', 'ring_chords', 'isolated', 'two_cliques'))
         W, meta = gen.graph_in_domain(rnd, False, wkind='bin', nmax=nmax, family=fam)
+        if rnd.random() < 0.15 and len(W) > 5:
+            # dense graph with isolated node(s): the complement path and the fully-connected-node path are both active
+            for x in rnd.sample(range(len(W)), rnd.randint(1, 2)):
+                W[x, :] = 0
+                W[:, x] = 0
+            meta['isolated_added'] = True
         params['alpha'] = rnd.choice((0, 0.3, 0.7, 1, 1))
     elif connected or routine in CONNECTED:
         W, meta = gen.connected_graph(rnd, directed, nmax=nmax, wkind=wkind)
